@@ -186,9 +186,19 @@ func rawWrite(fd int, b []byte) {
 // step budget); the client wrapper recovers it.
 type abortSentinel struct{}
 
+// ExitWithMain: the run models a whole process; it is over as soon as the initial clients have returned.
+var ExitWithMain bool
+
+// IsAbort reports whether a recovered panic value is the scheduler's own signal that the run is being torn down
+// (deadlock, step budget, end of the grace period); code that recovers panics inside a client must re-panic it.
+func IsAbort(r any) bool { _, ok := r.(abortSentinel); return ok }
+
 // send an event to the scheduler and wait for the next grant.
 func yieldEv(kind int32, addr uint64) {
 	s := getCur()
+	if (kind == evYield || kind == evReleased) && s.count() == 1 {
+		return // the only task there has ever been in this run: nobody else could be scheduled here
+	}
 	id := getCurTask()
 	var buf [16]byte
 	binary.LittleEndian.PutUint32(buf[0:], uint32(id))
@@ -455,6 +465,9 @@ func Run(clients []func(), schedule []uint16, maxSteps int) *RunResult {
 			// for a stop signal nobody sends): not a deadlock of the clients. They get a grace period to finish.
 			if graceEnd == 0 {
 				graceEnd = step + 400
+				if ExitWithMain {
+					graceEnd = step // a process ends when its main goroutine returns, whatever else is still running
+				}
 			}
 			onlyPolling := len(runnable) > 0 && status[runnable[0]] == stPolling
 			if len(runnable) == 0 || onlyPolling || step >= graceEnd || step >= maxSteps {
